@@ -33,7 +33,7 @@ var dims = []dim{
 	{"curve", 11, 5},   // parameter id 8+v
 	{"suite", 4, 1},    // cipher 1+v
 	{"dgs", 64, 9},     // subset of {2,7,11,12,13,16}
-	{"ca", 5, 0},       // 0 none, 1 P-256/3DES/noinfo, 2 bp256/AES128/id, 3 P-384/AES256/two keys, 4 bp512 explicit/AES192
+	{"ca", 12, 0},      // 0 none, 1 P-256/3DES/noinfo, 2 bp256/AES128/id, 3 P-384/AES256/two keys, 4 bp512 explicit/AES192, 5..11 the other seven curves (P-521, P-224, P-192, bp192, bp224, bp320, bp384) with rotating suites and arrangements
 	{"aa", 7, 0},       // 0 none, 1 RSA1024/BC, 2 RSA2048/34CC, 3 RSA4096/35CC, 4 EC P-256, 5 EC bp384 DER, 6 EC P-521
 	{"size", 15, 0},    // DG13 total size class
 	{"maxle", 16, 10},
@@ -138,6 +138,20 @@ func build(v vec) built {
 		cfg.CA = []perso.CASpec{{Curve: "P-384", Cipher: 4, KeyID: &one, NoInfo: true}, {Curve: "P-384", Cipher: 4, KeyID: &two}}
 	case 4:
 		cfg.CA = []perso.CASpec{{Curve: "brainpoolP512r1", Explicit: true, Cipher: 3}}
+	case 5:
+		cfg.CA = []perso.CASpec{{Curve: "P-521", Cipher: 4, KeyID: &one}}
+	case 6:
+		cfg.CA = []perso.CASpec{{Curve: "P-224", Cipher: 2}}
+	case 7:
+		cfg.CA = []perso.CASpec{{Curve: "P-192", Cipher: 1}}
+	case 8:
+		cfg.CA = []perso.CASpec{{Curve: "brainpoolP192r1", Cipher: 3, KeyID: &two}}
+	case 9:
+		cfg.CA = []perso.CASpec{{Curve: "brainpoolP224r1", Explicit: true, Cipher: 2}}
+	case 10:
+		cfg.CA = []perso.CASpec{{Curve: "brainpoolP320r1", Cipher: 4, AlsoCiphers: []int{1}}}
+	case 11:
+		cfg.CA = []perso.CASpec{{Curve: "brainpoolP384r1", Cipher: 1, KeyID: &one, AlsoCiphers: []int{3, 2}}}
 	}
 	switch v[6] {
 	case 1:
